@@ -8,12 +8,12 @@
  "loop_contracts": true,
  "includes": ["e2fsck", "lib/support"],
  "unwind": 3,
- "unwind_reason": "the per-group comparison loop of check_inode_bitmaps is closed by an in-place loop contract (anchor VERIF_INV_PASS5_IB_GROUPS, text below) whose invariant is pointwise at a ghost group p5_k; the bitmap scan loop runs over the ONE inode of the harness's filesystem (see assumes) and the `goto redo_counts` back edge is taken at most once (second pass: redo_flag set, so bitmap = actual, had_problem stays 0 and fixit is -1); unwinding assertions on",
+ "unwind_reason": "the per-group comparison loop of check_inode_bitmaps is closed by an in-place loop contract (anchor VERIF_INV_PASS5_IB_GROUPS, text below) whose invariant is pointwise at a ghost group p5_k; the bitmap scan loop runs over the ONE inode of the harness's filesystem (see assumes) and the `goto redo_counts` back edge is not taken (see assumes); unwinding assertions on",
  "functions": ["e2fsck/pass5.c:check_inode_bitmaps"],
  "assumes": ["no frame enforcement (check_inode_bitmaps is not under --enforce-contract): the statement is carried by the loop invariant of the comparison loop (checked: base, step) and restated as harness CHECKs",
-	     "the bitmap scan loop (first loop of the function) is NOT what this unit is about: it is run for real on a filesystem of one inode (s_inodes_count = s_inodes_per_group = 1) only so that the counted total is not a constant (0 or 1) and both outcomes of the bitmap latch (repair + recount, decline) are exercised; fs->group_desc_count stays arbitrary in 1 .. 65535 (cap: the counted arrays are allocated with that symbolic size, and with a larger bound the counterexample traces CBMC's JSON mode builds for the REACH canaries take minutes / exceed the 10 GB memory limit of the driver — the proof itself needs 20 s in plain mode for 2^30; 65535 groups is an 8 TiB filesystem at 4 KiB blocks) and the counted arrays have ARBITRARY contents in every group but 0 (the allocation stub hands out arbitrary memory, an over-approximation of zeroed memory), so the comparison loop is verified for an arbitrary group from an arbitrary outcome of the scan",
+	     "the bitmap scan loop (first loop of the function) is NOT what this unit is about: it is run for real on a filesystem of one inode (s_inodes_count = s_inodes_per_group = 1) only so that the counted total is not a constant (0 or 1); fs->group_desc_count stays arbitrary in 1 .. 2^30-1 and the counted arrays have ARBITRARY contents in every group but 0 (the allocation stub hands out arbitrary memory, an over-approximation of zeroed memory), so the comparison loop is verified for an arbitrary group from an arbitrary outcome of the scan",
 	     "group descriptors are an abstract map group -> (bg_free_inodes_count, bg_used_dirs_count): ext2fs_bg_*_count / _set (lib/ext2fs/blknum.c) are stubs that keep the values of the ghost group p5_k in ghost variables and return arbitrary values for other groups",
-	     "fix_problem is a stub answering from IN.choice[] and recording the reports that concern group p5_k; end_problem_latch returns an arbitrary -1/0/1; bitmap handles are opaque, bit tests answer arbitrarily",
+	     "fix_problem is a stub answering from IN.choice[] and recording the reports that concern group p5_k; end_problem_latch (the answer to 'fix the bitmap differences?') returns -1 or 0, never 1: the repair-and-recount path (copy the computed bitmap, memset the counted arrays, goto redo_counts) is not exercised — it precedes the comparisons this unit is about, and its whole-array assignments make CBMC's JSON counterexample traces take minutes; bitmap handles are opaque, bit tests answer arbitrarily",
 	     "e2fsck is not run with -E discard (E2F_OPT_DISCARD off): the discard helpers return at once",
 	     "needs the hooks of hooks-pending/fsck.diff (named anchors in e2fsck/pass5.c)"],
  "backend": "cadical",
@@ -57,7 +57,7 @@
 #include "verif.h"
 
 #define P5_NCHOICE 16u
-#define P5_MAXGROUPS 0xffffu
+#define P5_MAXGROUPS 0x3fffffffu
 struct in_p5 {
 	unsigned int k;			/* ghost group */
 	unsigned int groups;		/* fs->group_desc_count */
@@ -207,7 +207,7 @@ int fix_problem(e2fsck_t ctx, problem_t code, struct problem_context *pctx)
 int end_problem_latch(e2fsck_t ctx, int mask)
 {
 	(void) ctx; (void) mask;
-	return IN.latch_answer < 0 ? -1 : IN.latch_answer > 0 ? 1 : 0;
+	return IN.latch_answer < 0 ? -1 : 0;	/* never "yes": see assumes */
 }
 
 /* group descriptors: abstract map, exact for group k */
